@@ -441,7 +441,28 @@ def POWER(
     https://support.office.com/en-us/article/
         power-function-d3f2908b-56f4-4c3f-895a-07fb519c362a
     """
-    return np.power(number, power)
+    if number == 0 and power < 0:
+        raise xlerrors.DivZeroExcelError()
+
+    base = float(number)
+    exponent = float(power)
+    if base < 0 and not exponent.is_integer():
+        raise xlerrors.NumExcelError(
+            f'negative number {number} raised to fractional power {power}')
+
+    try:
+        result = base ** exponent
+    except OverflowError:
+        raise xlerrors.NumExcelError('result is too large')
+    if math.isinf(result):
+        raise xlerrors.NumExcelError('result is too large')
+
+    # Whole numbers raised to whole powers stay exact whole numbers.
+    if number.is_whole and power.is_whole and power >= 0 \
+            and abs(result) < 2**53:
+        return number.value ** power.value
+
+    return result
 
 
 @xl.register()
